@@ -1,2 +1,2 @@
-from . import core, strings, iters, maps, cell, errors, nums
+from . import core, strings, iters, maps, cell, errors, nums, fmt
 ALL_MODELS = core.REG
